@@ -228,8 +228,8 @@ def universe(n, L, R, simplify=True, allow_mm=True, cache=True):
 
 # ---------------------------------------------------------------- named universes
 QUICK = [(2, 1, 0), (3, 1, 0), (4, 1, 0), (2, 3, 2), (3, 2, 1), (3, 3, 1), (4, 2, 1)]
-THOROUGH = QUICK + [(3, 3, 2), (4, 3, 1), (4, 2, 2), (5, 1, 0), (5, 2, 1)]
-DEEP = THOROUGH + [(4, 3, 2), (6, 1, 0)]
+THOROUGH = QUICK + [(3, 3, 2), (4, 3, 1), (5, 1, 0)]  # ~4x the quick ARG set; with the larger menus 15-40x the work
+DEEP = THOROUGH + [(4, 2, 2), (5, 2, 1), (4, 3, 2), (6, 1, 0)]  # built by setup, available to ad-hoc runs
 
 
 class Space:
